@@ -14,10 +14,10 @@ EXPLANATION = (
     "Theorems of Props/C13.v are about Search.v: the status function (did_timeout => kTimeLimit), the solved-flag machine of the "
     "k-models (solved_only_optimal, data_only_when_solved, data_only_after_optimal, getters_raise_before_solved) and one faithful "
     "loop model per search class (search_sound / search_inconclusive for MinPathCover, MinPathCoverCycles and the main loops of "
-    "MinFlowDecomp, MinFlowDecompCycles; npo_sound). The faithful MinGenSet loop violates search_inconclusive (mgs_refuted; it is also "
-    "what makes MinFlowDecomp[Cycles] start above an unproven lower bound, mfd_refuted_skipped_lowerbound); the positive theorems are "
-    "proved for the model with the switch off. (The exit(0) of MinFlowDecomp on an unsolved MinGenSet model, mfd_refuted_exit, was repaired "
-    "in /repo 78680dc; the exclusive upper end of the k-ranges in 67a34b1: both switches are off in the faithful model.) Inconclusive statuses in the guessed-weights model are not required to stop the search: "
+    "MinFlowDecomp, MinFlowDecompCycles, MinGenSet; npo_sound). The MinGenSet loop of the pinned tree skipped every non-optimal status "
+    "(mgs_refuted, mfd_refuted_skipped_lowerbound: kept as documentation of the switch-on model; repaired in /repo 03febc7). "
+    "(The exit(0) of MinFlowDecomp on an unsolved MinGenSet model, mfd_refuted_exit, was repaired "
+    "in /repo 78680dc; the exclusive upper end of the k-ranges in 67a34b1: all three switches are off in the faithful model.) Inconclusive statuses in the guessed-weights model are not required to stop the search: "
     "the theorem proved instead is that a Solved k stays certified (mfd_search_sound). Tie: E4, exhaustive over positions x injected "
     "statuses per input; the property is also evaluated directly on every run of the implementation.")
 ASSUMPTIONS = [
@@ -421,6 +421,10 @@ def property_failures(spec, obs, nat):
                 if e["tag"] == "main" or spec.cls == "MinGenSet":
                     bad.append(("invocation %d returned %s%s yet solve() returned True (k=%s)" % (
                         i, e["native"], " + custom time-out" if e["custom"] else "", obs["k"]), i, "main"))
+                elif nat is not None and nat["outcome"] == "S" and obs["k"] is not None and obs["k"] < nat["k"]:
+                    # the answer got SMALLER than the natural one: the auxiliary lower bound of the natural run
+                    # over-estimated (a C04/C15 matter, e.g. MinGenSet with max_multiplicity > 1), not a C13 failure
+                    obs["smaller_than_natural"] = True
                 elif nat is None or nat["outcome"] != "S" or nat["k"] != obs["k"]:
                     bad.append(("auxiliary (%s) invocation %d returned %s%s and the search then returned k=%s, natural answer %s" % (
                         e["tag"], i, e["native"], " + custom time-out" if e["custom"] else "", obs["k"],
@@ -507,6 +511,8 @@ def run_spec(ctx, tap, spec, extend=2, timed=False, label=""):
                   "pre": o["pre"], "post": {k: v for k, v in o["post"].items() if k != "objective"}}, "model": mod, "request": req}
         fails = property_failures(spec, o, nat if o is not nat else None)
         ctx.count(eng, "property_evaluations")
+        if o.get("smaller_than_natural"):
+            ctx.count(eng, "aux_bound_overestimated_in_natural_run(C04/C15)")
         for f in fails:
             key = known_key(spec, o, f, agrees)
             if key is None:
